@@ -108,9 +108,9 @@ macro_rules! arch_backend {
 }
 
 arch_backend!(all, "all", memchr::arch::all::memchr, plain);
-#[cfg(target_arch = "x86_64")]
+#[cfg(verif_x86)]
 arch_backend!(sse2, "sse2", memchr::arch::x86_64::sse2::memchr, opt);
-#[cfg(target_arch = "x86_64")]
+#[cfg(verif_x86)]
 arch_backend!(avx2, "avx2", memchr::arch::x86_64::avx2::memchr, opt);
 #[cfg(target_arch = "aarch64")]
 arch_backend!(neon, "neon", memchr::arch::aarch64::neon::memchr, opt);
@@ -172,7 +172,7 @@ pub fn all_searchers(n: &[u8], only_top: bool) -> Vec<Box<dyn Searcher>> {
         return v;
     }
     v.extend(all::make(n));
-    #[cfg(target_arch = "x86_64")]
+    #[cfg(verif_x86)]
     {
         v.extend(sse2::make(n));
         v.extend(avx2::make(n));
